@@ -119,13 +119,17 @@ def np_qr(ex, st, node, args, kw):
         raise Refuted('np.linalg.qr of a non-matrix')
     p, r = zint(a.shape[0]), zint(a.shape[1])
     k = z3.If(p <= r, p, r)
-    return (ZArr((p, k)), ZArr((k, r)))
+    from .libz import kind_join, kind_of
+    kd = kind_join(kind_of(a), 'real')
+    return (ZArr((p, k), kd), ZArr((k, r), kd))
 
 def np_svd(ex, st, node, args, kw):
     a = args[0]
     p, r = zint(a.shape[0]), zint(a.shape[1])
     k = z3.If(p <= r, p, r)
-    return (ZArr((p, k)), ZArr((k,), 'real'), ZArr((k, r)))
+    from .libz import kind_join, kind_of
+    kd = kind_join(kind_of(a), 'real')
+    return (ZArr((p, k), kd), ZArr((k,), 'real'), ZArr((k, r), kd))
 
 def np_norm(ex, st, node, args, kw):
     a = args[0]
@@ -188,7 +192,7 @@ def q_setitem(ex, st, node, base, key, v):
         oblige(ex, st, node, 'index', f'{ast.unparse(node)[:50]}: slice within bounds', z3.And(zint(key.start) >= 0, zint(key.stop) <= n, zint(key.start) <= zint(key.stop)))
         return base
     if getattr(base, 'is_zarr', False) and (isinstance(v, int) or is_z(v)) and isinstance(key, tuple):
-        return z_setitem(ex, st, node, base, key, ZScal())
+        return z_setitem(ex, st, node, base, key, ZScal('int'))
     return z_setitem(ex, st, node, base, key, v)
 
 def q_binop(ex, st, node, op, l, r):
@@ -228,12 +232,27 @@ def is_qsparse(ex, st, node, args, kw):
 
 def np_zeros_q(ex, st, node, args, kw):
     from .libz import np_zeros
-    return np_zeros(ex, st, node, args[:1], {})
+    dt = kw.get('dtype')
+    if isinstance(dt, IArrDtype):
+        return np_zeros(ex, st, node, args[:1], {})          # integer charge arrays: length only
+    return np_zeros(ex, st, node, args[:1], {'dtype': dt} if dt is not None else {})
+
+class IArrDtype:
+    pass
 
 def g_dtype(ex, st, node, base):
+    if isinstance(base, IArr):
+        return IArrDtype()
+    if getattr(base, 'is_zarr', False):
+        from .libz import kind_of
+        return ('dtype', kind_of(base))
     return 'dtype'
 
 def np_issubdtype(ex, st, node, args, kw):
+    dt = args[0]
+    what = ast.unparse(node.args[1])
+    if isinstance(dt, tuple) and dt and dt[0] == 'dtype' and dt[1] in ('int', 'real', 'complex') and 'inexact' in what:
+        return dt[1] in ('real', 'complex')
     return Unknown('dtype kind')
 
 
@@ -265,7 +284,7 @@ def block_invariant(env, ex, st):
                                            q0.a(i1 - 1) == qis.a(k - 1), q1.a(j1 - 1) == qis.a(k - 1))))
 
 
-def run_contract(fn, with_tol):
+def run_contract(fn, with_tol, kind='complex'):
     from . import smt
     smt.EXTERNAL[0] = True
     out = []; t0 = time.time()
@@ -273,7 +292,7 @@ def run_contract(fn, with_tol):
     m, n = z3.Ints('m n')
     q0f, q1f = fi('q0_'), fi('q1_')
     Q0, Q1 = IArr(q0f, m), IArr(q1f, n)
-    A0 = ZArr((m, n)); A0.name = 'A0'
+    A0 = ZArr((m, n), kind); A0.name = 'A0'
     i, j = z3.Ints('i j')
     requires = [m >= 1, n >= 1, z3.ForAll([i, j], z3.Implies(z3.And(rng(i, m), rng(j, n), NZ(i, j)), q0f(i) == q1f(j)))]
     solver = Solver()
@@ -294,6 +313,7 @@ def run_contract(fn, with_tol):
         outs = handler(ex_, node, st_)
         return outs
     ex.loop_handler = loop_handler
+    ex.check_dtypes = True
     ex.assume_asserts = {'A.ndim == 2', 'len(q0) == A.shape[0]', 'len(q1) == A.shape[1]', 'is_qsparse(A, [q0, -q1])'}
     args = {'A': A0, 'q0': Q0, 'q1': Q1, '#sparse_assumed': True}
     if with_tol:
@@ -351,6 +371,7 @@ def run_contract(fn, with_tol):
     tot = time.time() - t0
     for v in out:
         v.seconds = tot / max(1, len(out))
+        v.name = f'{v.name} [entries: {kind}]'
     return out
 
 
@@ -364,17 +385,17 @@ def K_retained(ex, st, node, args, kw):
     return IArr(w, cnt, {'retained': True})
 
 
-def verify(prop):
+def verify(prop, kind='complex'):
     out = []
     if prop in ('C11', 'C01'):
         try:
-            out += run_contract('bond_ops.qr', False)
+            out += run_contract('bond_ops.qr', False, kind)
         except Exception as e:
             import traceback
             out.append(Verdict('block_loop', 'Z', 'undecided', f'executor error: {type(e).__name__}: {e} {traceback.format_exc()[-500:]}', 0, 'bond_ops.qr', 'ensures', 'z3'))
     if prop in ('C12', 'C13'):
         try:
-            out += run_contract('bond_ops.split_matrix_svd', True)
+            out += run_contract('bond_ops.split_matrix_svd', True, kind)
         except Exception as e:
             import traceback
             out.append(Verdict('block_loop', 'Z', 'undecided', f'executor error: {type(e).__name__}: {e} {traceback.format_exc()[-500:]}', 0, 'bond_ops.split_matrix_svd', 'ensures', 'z3'))
